@@ -551,6 +551,31 @@ func OnceDo[T any, F any](p *T, f F) {
 	}
 }
 
+// OnceFunc, OnceValue and OnceValues stand in for their sync namesakes in instrumented code (same reason as OnceDo).
+func OnceFunc(f func()) func() {
+	var o sync.Once
+	return func() { OnceDo(&o, func() { f() }) }
+}
+
+func OnceValue[T any](f func() T) func() T {
+	var o sync.Once
+	var r T
+	return func() T {
+		OnceDo(&o, func() { r = f() })
+		return r
+	}
+}
+
+func OnceValues[T1, T2 any](f func() (T1, T2)) func() (T1, T2) {
+	var o sync.Once
+	var r1 T1
+	var r2 T2
+	return func() (T1, T2) {
+		OnceDo(&o, func() { r1, r2 = f() })
+		return r1, r2
+	}
+}
+
 func RLockAddr[T any](p *T) {
 	if l, ok := any(p).(tryRLocker); ok {
 		RLock(l)
